@@ -520,11 +520,7 @@ Definition interp_dcs (tok : token) (ps ints : list N) (final : N) (data : list 
 Definition one_param (ps : list (option N)) : option (option N) :=
   match ps with [v] => Some v | _ => None end.
 
-Definition interp_csi (tok : token) (raw ints : list N) (final : N) : list op :=
-  let '(marker, body) := split_marker raw in
-  match parse_params body with
-  | None => [OUnknown tok]
-  | Some params =>
+Definition csi_dispatch (tok : token) (marker : option N) (params : list param) (ints : list N) (final : N) : list op :=
     match marker, ints with
     | None, [] =>
         if final =? 109 then [OSgr (sgr_trans params)]      (* m: SGR, sub-parameters allowed *)
@@ -595,7 +591,13 @@ Definition interp_csi (tok : token) (raw ints : list N) (final : N) : list op :=
         | _ => [OUnknown tok]
         end
     | _, _ => [OUnknown tok]
-    end
+    end.
+
+Definition interp_csi (tok : token) (raw ints : list N) (final : N) : list op :=
+  let '(marker, body) := split_marker raw in
+  match parse_params body with
+  | None => [OUnknown tok]
+  | Some params => csi_dispatch tok marker params ints final
   end.
 
 Definition interp_token (tok : token) : list op :=
